@@ -85,6 +85,14 @@ const testFid = 0x011C // an EF of the MF (selectable right after power-up)
 // runReadFile runs the real NfcSession.ReadFile for one case against a fresh chip and records the
 // trace events of Trace_ReadFile.
 func runReadFile(k rfCase) (res rfResult) {
+	res = runReadFileOnce(k)
+	if res.dur > 10*time.Second {
+		core.Calm(func() { res = runReadFileOnce(k) }) // a wall-clock observation is confirmed alone before it counts
+	}
+	return res
+}
+
+func runReadFileOnce(k rfCase) (res rfResult) {
 	rnd := rand.New(rand.NewSource(k.Seed))
 	tlvBytes := buildTLV(k.H, k.V, k.TwoByteTag, rnd)
 	if k.Indef {
@@ -375,7 +383,7 @@ func C13(c *core.Ctx) {
 		classes[r.class]++
 		c.Case(k.String(), k.SelSw == "9000" && k.H+k.V > 4)
 		rp := map[string]any{"case": k, "outcome": r.class, "detail": r.detail}
-		if r.dur > 20*time.Second {
+		if r.dur > core.Stretch(20*time.Second) {
 			c.Violation("C13:slow", fmt.Sprintf("ReadFile took %s for %s", r.dur, k), rp)
 		}
 		switch r.class {
